@@ -21,6 +21,7 @@ type nilSource struct {
 	Assume Assumption      // "the value is nil"
 	Path   string          // access path for path-based sources ("" otherwise)
 	Desc   string
+	Kill   func(ssa.Instruction) bool // instructions after which the value is something else (a re-assignment of the local holding it)
 }
 
 type nilCtx struct {
@@ -146,6 +147,27 @@ func (c *nilCtx) pathOfD(v ssa.Value, d int) string {
 			sts := reachingStores(a, x)
 			if len(sts) == 1 {
 				return c.pathOfD(sts[0].Val, d+1)
+			}
+			// a local that is only ever (re)filled with its initial parameter value or with freshly allocated objects
+			// (`if u == nil { u = &T{} }`): paths are rooted at the local itself — every nil test and every filling of a field
+			// through it speaks about the object it holds at that time, and a fresh object starts with all fields nil, so
+			// treating them as one object errs on the side of "may be nil"
+			if len(sts) > 1 {
+				okAll := true
+				for _, r := range *a.Referrers() {
+					if st, ok := r.(*ssa.Store); ok && st.Addr == ssa.Value(a) {
+						switch v := st.Val.(type) {
+						case *ssa.Parameter:
+						case *ssa.Alloc:
+							_ = v
+						default:
+							okAll = false
+						}
+					}
+				}
+				if okAll && !cellWrittenInClosures(a) {
+					return fmt.Sprintf("%%c%p", a)
+				}
 			}
 			return ""
 		case *ssa.FreeVar:
@@ -473,6 +495,11 @@ func (c *nilCtx) classifyD(fn *ssa.Function, v ssa.Value, d int) *nilSource {
 				if s := c.classifyD(fn, st.Val, d+1); s != nil {
 					inner := s.Assume
 					s2 := *s
+					stt := st
+					s2.Kill = func(in ssa.Instruction) bool {
+						o, ok := in.(*ssa.Store)
+						return ok && o.Addr == ssa.Value(a) && o != stt
+					}
 					s2.Assume = func(cond ssa.Value) (bool, bool) {
 						if b, ok := cond.(*ssa.BinOp); ok && (b.Op == token.EQL || b.Op == token.NEQ) {
 							isCell := func(y ssa.Value) bool {
@@ -838,6 +865,16 @@ func (c *nilCtx) checkFunction(fn *ssa.Function) (findings []nilFinding, examine
 		q := PathQuery{Fn: fn, From: src.At, Assume: src.Assume, Target: func(in ssa.Instruction) bool { return in == ds.In }}
 		if src.Path != "" {
 			q.Block = func(in ssa.Instruction) bool { return in != ds.In && c.establishes(in, src.Path, 0) }
+		}
+		if src.Kill != nil {
+			inner := q.Block
+			kill := src.Kill
+			q.Block = func(in ssa.Instruction) bool {
+				if in != ds.In && kill(in) {
+					return true
+				}
+				return inner != nil && inner(in)
+			}
 		}
 		if p := FindPath(q); p != nil {
 			findings = append(findings, nilFinding{fn, ds, src, p})
